@@ -216,6 +216,15 @@ def readTb [Sub V] [Div V] [IntCast V] (f : File V) (needAA convIItoI : Bool)
          else aaRaw ir m n c)
       else aaRaw ir m n c }
 
+/-- NOT the code: the system that the seeded writer "do not write R-vectors whose Ham block vanishes (except R=0)"
+    effectively writes - the R list and all matrices restricted to the kept R-vectors -/
+def dropZeroHam [DecidableEq V] [OfNat V 0] (s : Sys V) : Sys V :=
+  let keep := (List.range s.Rs.length).filter (fun ir =>
+    ir == iR0 s.Rs || (List.range s.nw).any (fun m => (List.range s.nw).any (fun n => !(s.ham ir m n == (0, 0)))))
+  { s with Rs := keep.map (fun ir => s.Rs.getD ir (0, 0, 0))
+           ham := fun ir m n => s.ham (keep.getD ir 0) m n
+           aa := fun ir m n c => s.aa (keep.getD ir 0) m n c }
+
 /-! ### npz directory (`to_npz` / `load_npz`) on the dictionary level
 
   A directory is an association list  file stem → array (`A` opaque).  `to_npz` writes one file per
